@@ -62,6 +62,25 @@ struct ParsedFunctionHeader<'b, W, R, T> {
 }
 
 impl<W, R, T> CompilationScope<'_, W, R, T> {
+    fn compile_param_default(
+        &mut self,
+        default: XStaticExpr<W, R, T>,
+        param_name: Identifier,
+        param_type: &Arc<XType>,
+    ) -> Result<XExpr<W, R, T>, CompilationError> {
+        // the default stands in for an argument: it must be assignable to the parameter as it is declared
+        let compiled = self.compile(default)?;
+        let default_type = self.type_of(&compiled)?;
+        match param_type.bind_in_assignment(&default_type) {
+            Some(bind) if bind.is_empty() => Ok(compiled),
+            _ => Err(CompilationError::VariableTypeMismatch {
+                variable_name: param_name,
+                expected_type: param_type.clone(),
+                actual_type: default_type,
+            }),
+        }
+    }
+
     fn parse_function_header<'b>(
         &mut self,
         input: &Pair<'b, Rule>,
@@ -103,10 +122,10 @@ impl<W, R, T> CompilationScope<'_, W, R, T> {
                 (
                     name,
                     XFuncParamSpec {
-                        type_: xtype,
+                        type_: xtype.clone(),
                         required: default.is_none(),
                     },
-                    default,
+                    default.map(|d| (d, name, xtype)),
                 )
             })
             .multiunzip();
@@ -118,7 +137,7 @@ impl<W, R, T> CompilationScope<'_, W, R, T> {
         };
         let defaults = param_static_defaults
             .into_iter()
-            .filter_map(|s| s.map(|s| self.compile(s)))
+            .filter_map(|s| s.map(|(s, name, type_)| self.compile_param_default(s, name, &type_)))
             .collect::<Result<_, _>>()
             .map_err(|e| e.trace(input))?;
         let param_len = param_names.len();
@@ -793,17 +812,19 @@ impl<W, R, T> CompilationScope<'_, W, R, T> {
                             (
                                 name,
                                 XFuncParamSpec {
-                                    type_: xtype,
+                                    type_: xtype.clone(),
                                     required: default.is_none(),
                                 },
-                                default,
+                                default.map(|d| (d, name, xtype)),
                             )
                         })
                         .multiunzip();
                 let param_len = param_specs.len();
                 let defaults = param_static_defaults
                     .into_iter()
-                    .filter_map(|s| s.map(|s| self.compile(s)))
+                    .filter_map(|s| {
+                        s.map(|(s, name, type_)| self.compile_param_default(s, name, &type_))
+                    })
                     .collect::<Result<_, _>>()
                     .map_err(|e| e.trace(&input))?;
                 let mut subscope = CompilationScope::from_parent_lambda(
